@@ -323,6 +323,25 @@ impl Fdt {
             .find(|(_, item)| item.should_transfer_now(priority, self.publish_mode, now))?;
 
         let file = self.files_transfer_queue.remove(index).unwrap();
+        let previous = file.transfer_started(now);
+
+        match self.publish_mode {
+            FDTPublishMode::ObjectsBeingTransferred => {
+                if let Err(e) = self.publish(now) {
+                    // No FDT can announce this object: do not send it, try again later
+                    log::error!(
+                        "Fail to publish the FDT, toi={} is not transferred: {:?}",
+                        file.toi,
+                        e
+                    );
+                    file.transfer_cancelled(previous);
+                    self.files_transfer_queue.insert(index, file);
+                    return None;
+                }
+            }
+            FDTPublishMode::FullFDT => {}
+        }
+
         log::info!(
             "Start transmission of {} toi={}",
             file.object.content_location.as_str(),
@@ -331,15 +350,6 @@ impl Fdt {
 
         let evt = observer::Event::StartTransfer(observer::FileInfo { toi: file.toi });
         self.observers.dispatch(&evt, now);
-
-        file.transfer_started(now);
-
-        match self.publish_mode {
-            FDTPublishMode::ObjectsBeingTransferred => {
-                self.publish(now).ok();
-            }
-            FDTPublishMode::FullFDT => {}
-        }
 
         Some(file.clone())
     }
